@@ -88,6 +88,9 @@ type Contract struct {
 	Decl     *ast.FuncDecl // the real function
 	Replay   string
 	NoFrame  bool
+	Exclusive bool     // the function needs exclusive access to its receiver (writes fields that have no lock)
+	Acquires []string // mutexes (Type.field) the function may acquire, transitively
+	Role     string   // goroutine role the function is the body of
 	Atomic   []string
 	Extra    map[string][]string
 }
@@ -126,7 +129,7 @@ type fieldDiscipline struct {
 	Arg  string
 }
 
-var clauseKW = regexp.MustCompile(`^(func|props|requires|ensures|modifies|loop|label|inline|trusted|pure|import|replay|noframe|field|lockorder|lemma|spec|axiom|at|extern)\b`)
+var clauseKW = regexp.MustCompile(`^(func|props|requires|ensures|modifies|loop|label|inline|trusted|pure|import|replay|noframe|field|lockorder|lemma|spec|axiom|at|extern|exclusive|acquires|role)\b`)
 
 type rawContract struct {
 	header string
@@ -504,6 +507,14 @@ func buildStub(rc *rawContract, file string) (*Contract, string, error) {
 			ct.Pure = true
 		case "noframe":
 			ct.NoFrame = true
+		case "exclusive":
+			ct.Exclusive = true
+		case "acquires":
+			for _, f := range strings.FieldsFunc(rest, func(r rune) bool { return r == ',' || r == ' ' }) {
+				ct.Acquires = append(ct.Acquires, f)
+			}
+		case "role":
+			ct.Role = rest
 		case "replay":
 			ct.Replay = rest
 		case "requires", "ensures", "modifies":
